@@ -28,6 +28,7 @@ theorem next_eq (s : KeltnerChannel F) (x : F) :
                   (ExponentialMovingAverage.step s.atr.ema (TrueRange.out s.atr.true_range x)).current
                   s.multiplier) := by
   unfold next
+  try simp only [gen_helper]
   simp [AverageTrueRange.next_eq, ExponentialMovingAverage.next_eq, mkOut]
 
 /-- bar path: the EMA is fed the typical price, the ATR is fed the bar -/
@@ -41,6 +42,7 @@ theorem nextBar_eq (s : KeltnerChannel F) (b : Bar F) :
                   (ExponentialMovingAverage.step s.atr.ema (TrueRange.outBar s.atr.true_range b)).current
                   s.multiplier) := by
   unfold nextBar
+  try simp only [gen_helper]
   simp [AverageTrueRange.nextBar_eq, ExponentialMovingAverage.next_eq, mkOut, typicalPrice]
 
 /-- the outputs spelled out (scalar path) -/
